@@ -713,8 +713,14 @@ pub fn run_with(spec: &Spec, hook: Option<NetHook>) -> Outcome {
             // shutdown() (which waits for the acknowledgement of the FIN) must be given the chance to finish
             // before the client application closes the connection (bounded by the scenario deadline)
             loop {
-                if sh.lock().unwrap().jobs.iter().all(|j| j.kind != "UniS2C" || j.write_done || j.write_err.is_some() || j.open_err.is_some()) {
-                    break;
+                {
+                    let g = sh.lock().unwrap();
+                    // ... and the client's handshaked() (it waits for HANDSHAKE_DONE, which may need a retransmission
+                    // although the short jobs are already finished)
+                    let hs_settled = g.handshake_ms.is_some() || g.handshake_err.is_some();
+                    if hs_settled && g.jobs.iter().all(|j| j.kind != "UniS2C" || j.write_done || j.write_err.is_some() || j.open_err.is_some()) {
+                        break;
+                    }
                 }
                 tokio::time::sleep(Duration::from_millis(50)).await;
             }
